@@ -3,8 +3,9 @@
    against a field of N bytes.  Each name is printed ("N|" lines) for replay on the real code at the
    model length and, re-based, at the real lengths 32 and 64.
    Invariants: the design `Store` (accept iff readable) satisfies the monitors under both read
-   functions; and the code as transcribed (ToBytes ; FromBytes) satisfies them exactly outside the
-   classes exactly_fills_field and contains_nul - the anticipated defect, located in the model. *)
+   functions; the code as repaired (ToBytes ; FromBytes) satisfies them everywhere, and the pre-repair
+   transcription (ToBytesOld ; FromBytesOld) exactly outside the classes exactly_fills_field and
+   contains_nul - the defect, located in the model. *)
 EXTENDS FixedStrProps, TLC, Json
 CONSTANTS N, MaxChars
 VARIABLES name, chars
@@ -29,7 +30,13 @@ DesignHolds ==
 (* nothing readable is refused by the design, nothing unreadable accepted *)
 DesignExact ==
   \A full \in BOOLEAN : Store(name, N, full).ok <=> (Class(name, N) = "fits" \/ (full /\ Class(name, N) = "exactly_fills_field"))
+OldCodeEv ==
+  LET st == ToBytesOld(name, N) IN Ev("code", st.ok, IF st.ok THEN FromBytesOld(st.bytes) ELSE NoStr)
+(* the code as repaired satisfies the monitors on every name and coincides with the design under the
+   full-field read function; the pre-repair transcription fails exactly on the two defect classes *)
 CodeDefectClasses ==
   /\ Conforms(CodeEv)
-  /\ MonReadBack(CodeEv) <=> Class(name, N) \notin {"exactly_fills_field", "contains_nul"}
+  /\ MonReadBack(CodeEv) /\ MonUsable(CodeEv)
+  /\ ToBytes(name, N).ok <=> Store(name, N, TRUE).ok
+  /\ MonReadBack(OldCodeEv) <=> Class(name, N) \notin {"exactly_fills_field", "contains_nul"}
 =============================================================================
